@@ -458,6 +458,220 @@ def frame_prog(src, impl_re, size_fn, pdu_fn, subject):
         raise Skip("encode: CRC computed but not written")
     return ops
 
+
+# ------------------------------------------------------------------ PDU decoders as read programs
+ERR_INVALID_DATA = r"return Err\((io::)?Error::new\(\s*(io::)?ErrorKind::InvalidData\s*,[^;]*\)\s*,?\s*\);"
+
+
+def split_block(body):
+    """top-level statements of a block; the last one may be an expression without `;`.  `if`/`for` blocks end at their brace."""
+    stmts, depth, cur = [], 0, ""
+    for c in body:
+        if c in "{([":
+            depth += 1
+        elif c in "})]":
+            depth -= 1
+        cur += c
+        t = cur.strip()
+        if depth == 0 and (c == ";" or (c == "}" and (t.startswith("for ") or t.startswith("if ")))):
+            stmts.append(" ".join(t.split()))
+            cur = ""
+    if cur.strip():
+        stmts.append(" ".join(cur.split()))
+    return stmts
+
+
+def dec_prog(src, fn_name, chk_fn, result_var):
+    fn = block_after(src, r"fn\s+%s\s*\(" % fn_name)
+    head = fn[:fn.index("match fn_code")]
+    for need in (r"let pdu_size = bytes\.len\(\);", r"let rdr = &mut Cursor::new\(&bytes\);", r"let fn_code = rdr\.read_u8\(\)\?;"):
+        if not re.search(need, " ".join(head.split())):
+            raise Skip("%s: prologue changed (%s)" % (fn_name, need))
+    if not re.search(r"let %s = match fn_code \{" % result_var, " ".join(head.split()) + " match fn_code {"):
+        raise Skip("%s: the match on the function code is not bound to `%s`" % (fn_name, result_var))
+    m = block_after(fn, r"match\s+fn_code\s*\{")
+    tail = " ".join(fn[fn.index(m) + len(m):].split())
+    if not re.fullmatch(r"\}; if rdr\.has_remaining\(\) \{ " + ERR_INVALID_DATA + r" \} Ok\(%s\)" % result_var, tail):
+        raise Skip("%s: epilogue (all data consumed) changed: %s" % (fn_name, tail[:80]))
+    rows, custom_below, default_seen = [], None, False
+    for p, e in split_arms(m):
+        e = e.strip()
+        if not re.fullmatch(r"0[xX][0-9a-fA-F]+|\d+", p):
+            # default arms
+            body = " ".join(e.split())
+            if re.fullmatch(r"fn_code if fn_code < (0x[0-9a-fA-F]+)", p):
+                if not re.fullmatch(r"\{ return Ok\(Custom\(fn_code, bytes\[1\.\.\]\.to_vec\(\)\.into\(\)\)\); \}", body):
+                    raise Skip("%s: Custom arm changed" % fn_name)
+                custom_below = num(re.fullmatch(r"fn_code if fn_code < (0x[0-9a-fA-F]+)", p).group(1))
+                continue
+            if p == "fn_code" and custom_below is not None:
+                if not re.fullmatch(r"\{ " + ERR_INVALID_DATA + r" \}", body):
+                    raise Skip("%s: invalid-function-code arm changed" % fn_name)
+                default_seen = True
+                continue
+            if p == "_":
+                if not re.fullmatch(r"\{ let mut bytes = bytes; return Ok\(Custom\(fn_code, bytes\.split_off\(1\)\)\); \}", body):
+                    raise Skip("%s: default arm changed" % fn_name)
+                default_seen = True
+                continue
+            raise Skip("%s: unrecognised pattern %s" % (fn_name, p))
+        if default_seen or custom_below is not None:
+            raise Skip("%s: arm after a default arm" % fn_name)
+        key = num(p)
+        stmts = split_block(e[1:-1]) if e.startswith("{") else [e]
+        if not stmts:
+            raise Skip("%s: empty arm" % fn_name)
+        env, prog = {}, []          # name -> index of the bound value
+
+        def bind(name):
+            env[name] = len(env)
+            # positions are those of bound values in execution order
+            return env[name]
+
+        nbound = [0]
+
+        def push(name=None):
+            i = nbound[0]
+            nbound[0] += 1
+            if name:
+                env[name] = i
+            return i
+
+        def atom(t):
+            t = t.strip()
+            mm = re.fullmatch(r"usize::from\((\w+)\)|u16::from\((\w+)\)|(\w+)", t)
+            if mm:
+                v = mm.group(1) or mm.group(2) or mm.group(3)
+                if re.fullmatch(r"\d+", v):
+                    return "DConst %s" % v
+                if v in env:
+                    return "DVar %d" % env[v]
+            if t == "bytes.len()":
+                return "DLenAll"
+            raise Skip("%s: unrecognised operand %s" % (fn_name, t))
+
+        def expr(t):
+            t = t.strip()
+            mm = re.fullmatch(r"\((.*)\)\.into\(\)", t)
+            if mm:
+                return expr(mm.group(1))
+            mm = re.fullmatch(r"(.*)\.into\(\)", t)
+            if mm and "(" not in mm.group(1):
+                return expr(mm.group(1))
+            for op, ctor in ((" + ", "DAdd"), (" - ", "DSub"), (" * ", "DMul"), (" / ", "DDiv")):
+                if op in t:
+                    a, b = t.split(op, 1)
+                    if any(o in b for o in (" + ", " - ", " * ", " / ")):
+                        raise Skip("%s: compound expression %s" % (fn_name, t))
+                    return "%s (%s) (%s)" % (ctor, atom(a), atom(b))
+            return atom(t)
+
+        def cond(t):
+            t = t.strip()
+            mm = re.fullmatch(r"(.*) % 2 != 0", t)
+            if mm:
+                return "COdd (%s)" % atom(mm.group(1))
+            if " != " in t:
+                a, b = t.split(" != ")
+                return "CNe (%s) (%s)" % (expr(a), expr(b))
+            if " < " in t:
+                a, b = t.split(" < ")
+                return "CLt (%s) (%s)" % (expr(a), expr(b))
+            if " > " in t:
+                a, b = t.split(" > ")
+                return "CLt (%s) (%s)" % (expr(b), expr(a))
+            raise Skip("%s: unrecognised condition %s" % (fn_name, t))
+
+        slices = {}                 # name -> (lo, hi) of a `&bytes[lo..hi]` slice
+        consumed = [None]
+        pending_vec = {}            # name -> count expression of a Vec::with_capacity
+        for st in stmts[:-1]:
+            if re.fullmatch(r"%s\(pdu_size\)\?;" % chk_fn, st):
+                prog.append("DChkSize"); continue
+            mm = re.fullmatch(r"let (\w+) = read_u16_be\(rdr\)\?;", st)
+            if mm:
+                prog.append("DRead16"); push(mm.group(1)); continue
+            mm = re.fullmatch(r"let (\w+) = (usize::from\()?rdr\.read_u8\(\)\?\)?;", st)
+            if mm:
+                prog.append("DRead8"); push(mm.group(1)); continue
+            mm = re.fullmatch(r"if (.*) \{ " + ERR_INVALID_DATA + r" \}", st)
+            if mm:
+                prog.append("DFailIf (%s)" % cond(mm.group(1))); continue
+            mm = re.fullmatch(r"let (\w+) = &bytes\[(\d+)\.\.(\d+) \+ (.*)\];", st)
+            if mm and mm.group(2) == mm.group(3):
+                slices[mm.group(1)] = (int(mm.group(2)), atom(mm.group(4))); continue
+            mm = re.fullmatch(r"rdr\.consume\((.*)\);", st)
+            if mm:
+                consumed[0] = expr(mm.group(1)); continue
+            mm = re.fullmatch(r"let (\w+) = match rdr\.read_u8\(\)\? \{ 0x00 => false, 0xFF => true, \w+ => \{ " + ERR_INVALID_DATA + r" \} \};", st)
+            if mm:
+                prog.append("DReadRun"); push(mm.group(1)); continue
+            mm = re.fullmatch(r"let mut (\w+) = Vec::with_capacity\((.*)\);", st)
+            if mm:
+                pending_vec[mm.group(1)] = expr(mm.group(2)); continue
+            mm = re.fullmatch(r"for _ in 0\.\.(\w+) \{ (\w+)\.push\((read_u16_be\(rdr\)\?|rdr\.read_u8\(\)\?)\); \}", st)
+            if mm and mm.group(2) in pending_vec:
+                n = atom(mm.group(1))
+                if pending_vec[mm.group(2)] != n:
+                    raise Skip("%s: Vec capacity and loop bound differ" % fn_name)
+                prog.append(("DWords (%s)" if "u16" in mm.group(3) else "DBytes (%s)") % n); push(mm.group(2)); continue
+            mm = re.fullmatch(r"let (\w+) = (.*);", st)
+            if mm and "rdr" not in mm.group(2) and "bytes[" not in mm.group(2):
+                prog.append("DLet (%s)" % expr(mm.group(2))); push(mm.group(1)); continue
+            raise Skip("%s: unrecognised statement in arm 0x%02X: %s" % (fn_name, key, st[:70]))
+        # the variant built at the end
+        last = stmts[-1]
+        mv = re.fullmatch(r"([A-Z][A-Za-z]+)(\((.*)\))?", last)
+        if not mv:
+            raise Skip("%s: arm 0x%02X does not end with a variant: %s" % (fn_name, key, last[:60]))
+        args, depth, cur = [], 0, ""
+        for c in (mv.group(3) or ""):
+            if c == "(":
+                depth += 1
+            elif c == ")":
+                depth -= 1
+            if c == "," and depth == 0:
+                args.append(cur.strip()); cur = ""
+            else:
+                cur += c
+        if cur.strip():
+            args.append(cur.strip())
+        picks = []
+        for a in args:
+            if a == "read_u16_be(rdr)?":
+                prog.append("DRead16"); picks.append(push()); continue
+            if a == "coil_to_bool(read_u16_be(rdr)?)?":
+                prog.append("DReadCoil"); picks.append(push()); continue
+            mm = re.fullmatch(r"decode_packed_coils\((\w+), (\w+)\)(\.into\(\))?", a)
+            if mm and mm.group(1) in slices:
+                lo, n = slices[mm.group(1)]
+                # the slice starts where the cursor stands (lo bytes were read: fn code + fields) and the cursor skips it
+                if consumed[0] is None or consumed[0] != n:
+                    raise Skip("%s: arm 0x%02X: the packed coils are not the bytes the cursor skips" % (fn_name, key))
+                nread = 1 + sum(2 if x in ("DRead16", "DReadCoil") else 1 if x in ("DRead8", "DReadRun") else 0 for x in prog)
+                if nread != lo:
+                    raise Skip("%s: arm 0x%02X: the slice starts at %d but %d bytes were read" % (fn_name, key, lo, nread))
+                prog.append("DBits (%s) (%s)" % (n, atom(mm.group(2)))); picks.append(push()); continue
+            mm = re.fullmatch(r"(\w+)(\.into\(\))?", a)
+            if mm and mm.group(1) in env:
+                picks.append(env[mm.group(1)]); continue
+            raise Skip("%s: arm 0x%02X: unrecognised field %s" % (fn_name, key, a[:50]))
+        rows.append((key, prog, mv.group(1), picks))
+    if not default_seen:
+        raise Skip("%s: no default arm" % fn_name)
+    return rows, custom_below
+
+
+def chk_kinds(src):
+    out = []
+    for fn in ("check_request_pdu_size", "check_response_pdu_size"):
+        body = " ".join(block_after(src, r"fn\s+%s\s*\(\s*pdu_size\s*:\s*usize\s*\)\s*->\s*io::Result<\(\)>\s*\{" % fn).split())
+        mm = re.fullmatch(r"if pdu_size > MAX_PDU_SIZE \{ return Err\(io::Error::new\( ?ErrorKind::(\w+), \"[^\"]*\",? ?\)\); \} Ok\(\(\)\)", body)
+        if not mm:
+            raise Skip("%s changed shape" % fn)
+        out.append(mm.group(1))
+    return tuple(out)
+
 # ------------------------------------------------------------------ emit
 def s2l(name):
     return 's2l "%s"' % name
@@ -478,7 +692,7 @@ def emit_size(rows):
 def main():
     pieces, skipped, out = {}, {}, []
     out.append("(* GENERATED by tools/translate.py from the Rust source under %s -- regenerated on every run, do not edit *)" % REPO)
-    out.append("From Coq Require Import String.\nFrom TM Require Import Base Frame Pdu Crc RtuCodec TcpCodec Text Tables.\nLocal Open Scope string_scope.\n")
+    out.append("From Coq Require Import String.\nFrom TM Require Import Base Frame Pdu Crc RtuCodec TcpCodec Text Tables DecProg.\nLocal Open Scope string_scope.\n")
 
     def piece(name, typ, fallback, thunk, emit):
         try:
@@ -546,6 +760,16 @@ def main():
           lambda: frame_prog(tcp, r"impl<'a>\s+Encoder<RequestAdu<'a>>\s+for\s+ClientCodec\s*\{", "request_pdu_size", "encode_request_pdu", "request"), emit_ops)
     piece("gen_tcp_server_frame", "list fop", "tcp_frame_prog_model",
           lambda: frame_prog(tcp, r"impl\s+Encoder<ResponseAdu>\s+for\s+ServerCodec\s*\{", "response_result_pdu_size", "encode_response_result_pdu", r"(pdu_res|pdu_result)"), emit_ops)
+    emit_dec = lambda rows: "[" + "; ".join("(%d, ([%s], (%s, [%s]%%nat)))" % (k, "; ".join(pr), s2l(n), "; ".join(map(str, pk))) for k, pr, n, pk in rows) + "]"
+    dec_cache = {}
+    def dec(fn_name, chk, var):
+        if fn_name not in dec_cache:
+            dec_cache[fn_name] = dec_prog(codec, fn_name, chk, var)
+        return dec_cache[fn_name]
+    piece("gen_req_dec_prog", "dec_table", "req_dec_prog_model", lambda: dec("decode_request_pdu_bytes", "check_request_pdu_size", "req")[0], emit_dec)
+    piece("gen_req_custom_below", "N", "128", lambda: dec("decode_request_pdu_bytes", "check_request_pdu_size", "req")[1] or (_ for _ in ()).throw(Skip("no Custom arm")), str)
+    piece("gen_rsp_dec_prog", "dec_table", "rsp_dec_prog_model", lambda: dec("decode_response_pdu_bytes", "check_response_pdu_size", "response")[0], emit_dec)
+    piece("gen_chk_kinds", "list N * list N", '(s2l "InvalidData", s2l "InvalidInput")', lambda: chk_kinds(codec), lambda t: "(%s, %s)" % (s2l(t[0]), s2l(t[1])))
     piece("gen_LEN_MAX", "N * N", "(65535, 255)", lambda: len_helpers(codec), lambda t: "(%d, %d)" % t)
     os.makedirs(os.path.dirname(OUT), exist_ok=True)
     new = "\n".join(out) + "\n"
